@@ -12,6 +12,7 @@ import sys
 
 REGISTRIES = {
     "r7": ["A", "Z", "H", "O", "S", "V", "W"],
+    "r0": [],
     "r8": ["A", "Z", "H", "O", "S", "V", "W", "X"],
     "r9": ["A", "Z", "H", "O", "S", "V", "W", "X", "Y"],
     "r10": ["A", "Z", "H", "O", "S", "V", "W", "X", "Y", "T"],
@@ -121,6 +122,11 @@ def filter_comps(f):
 # ---- catalogue generation ---------------------------------------------------------------------
 
 def gen_queries(rng, comps, n_random):
+    if not comps:
+        # Empty registry: only identifier / empty views and component-free filters exist.
+        return [([], ("none",)), ([(K_ID, None)], ("none",)), ([(K_ID, None)], ("view", K_ID, None)), ([], ("views", [])),
+                ([(K_ID, None)], ("not", ("none",))), ([(K_ID, None)], ("and", ("none",), ("view", K_ID, None))),
+                ([], ("or", ("not", ("none",)), ("none",)))]
     qs = []
     # every view kind on every component alone
     for c in comps:
@@ -180,6 +186,9 @@ def kinds_compatible_sub(sub, sup):
 
 def gen_entries_queries(rng, comps, n_random):
     """(iter_views, iter_filter, entry_views, sub_views, sub_filter)"""
+    if not comps:
+        return [([(K_ID, None)], ("none",), [(K_ID, None)], [(K_ID, None)], ("none",)), ([], ("none",), [(K_ID, None)], [], ("none",)),
+                ([(K_ID, None)], ("none",), [], [], ("none",))]
     out = []
     sub_sup = [(s, p) for s in (K_REF, K_MUT, K_OPT, K_OPTMUT) for p in (K_REF, K_MUT, K_OPT, K_OPTMUT)
                if kinds_compatible_sub(s, p)]
@@ -293,7 +302,9 @@ def main():
     scale = {"r7": 1.0, "r8": 0.7, "r9": 0.6}.get(reg, 0.6)
 
     # insert sites
-    if nc <= 7:
+    if nc == 0:
+        masks = [0]
+    elif nc <= 7:
         masks = all_masks(nc)
     else:
         masks = [0] + [1 << i for i in range(nc)] + [(1 << nc) - 1]
@@ -303,7 +314,7 @@ def main():
             if m not in masks:
                 masks.append(m)
     insert_sites = [(m, mask_comps(m, comps)) for m in masks]
-    for _ in range(int(60 * scale)):
+    for _ in range(int(60 * scale) if nc >= 2 else 0):
         m = rng.choice([x for x in masks if bin(x).count("1") >= 2])
         order = mask_comps(m, comps)
         canon = order[:]
@@ -311,8 +322,8 @@ def main():
             rng.shuffle(order)
         insert_sites.append((m, order))
 
-    ext_masks = [0] + [1 << i for i in range(nc)] + [(1 << nc) - 1]
-    while len(ext_masks) < int(40 * scale):
+    ext_masks = [0] + [1 << i for i in range(nc)] + ([(1 << nc) - 1] if nc else [])
+    while nc and len(ext_masks) < int(40 * scale):
         m = rng.randrange(1 << nc)
         if m not in ext_masks:
             ext_masks.append(m)
@@ -330,7 +341,7 @@ def main():
     if not any(m == 0 for (m, _) in cloned_sites):
         cloned_sites.append((0, []))
     rows_sites = []  # entities!((..),(..)) explicit rows
-    for nrows in (1, 2, 3):
+    for nrows in ((1, 2, 3) if nc else ()):
         for _ in range(2):
             m = rng.choice([x for x in ext_masks if x != 0])
             order = mask_comps(m, comps)
